@@ -67,7 +67,7 @@ let ev_str = function
 
 let acc_str bad rs =
   if rs = [] then "-" else
-  match accepted fixed fixed bad rs with
+  match accepted fixed fixed fixed bad rs with
   | Some l -> String.concat "" (List.map (fun b -> if b then "1" else "0") l)
   | None -> "!"
 
@@ -99,7 +99,7 @@ let check inp obs =
     let badl = if bad = "-" then [] else List.map n_of_hex (split ',' bad) in
     let stepl = parse_steps hd steps in
     (* model *)
-    let ((outs, panicked), _) = run fixed fixed badl (init_state N0) stepl in
+    let ((outs, panicked), _) = run fixed fixed fixed badl (init_state N0) stepl in
     let rec render steps outs = match steps, outs with
       | s :: sr, o :: orr ->
         (match s, o with
